@@ -393,7 +393,7 @@ func addTime(T map[string]intrinsic) {
 	}
 	T["(time.Time).Format"] = func(m *Machine, th *Thread, fr *Frame, f FuncV, a []Value) (Value, invStatus) {
 		// a concrete instant (UTC wall clock) and a concrete layout: the real time package
-		if rt, ok := concreteFlat(a[0].(TimeV)); ok {
+		if rt, ok := m.concreteFlat(a[0].(TimeV)); ok {
 			if layout, ok := m.strConcrete(a[1].(StrV)); ok {
 				return done(m.mkStr(rt.Format(layout)))
 			}
@@ -415,7 +415,7 @@ func addTime(T map[string]intrinsic) {
 			t := a[0].(TimeV)
 			if t.civ == nil {
 				// a concrete instant (UTC wall clock): evaluated with the real time package
-				if rt, ok := concreteFlat(t); ok {
+				if rt, ok := m.concreteFlat(t); ok {
 					var v int
 					switch n {
 					case "Year":
@@ -454,7 +454,7 @@ func addTime(T map[string]intrinsic) {
 		if t.civ != nil {
 			return done(m.civilTruncate(t, d))
 		}
-		if rt, ok := concreteFlat(t); ok && d.IsConst() {
+		if rt, ok := m.concreteFlat(t); ok && d.IsConst() {
 			return done(TimeV{ns: m.tt.BV(uint64(rt.Truncate(time.Duration(d.SInt())).UnixNano()), 64), zero: m.tt.ff, loc: t.loc})
 		}
 		panic(unsupported("time.Truncate on flat time"))
@@ -463,7 +463,7 @@ func addTime(T map[string]intrinsic) {
 		t := a[0].(TimeV)
 		if t.civ == nil {
 			y, mo, d := a[1].(*Term), a[2].(*Term), a[3].(*Term)
-			if rt, ok := concreteFlat(t); ok && y.IsConst() && mo.IsConst() && d.IsConst() {
+			if rt, ok := m.concreteFlat(t); ok && y.IsConst() && mo.IsConst() && d.IsConst() {
 				r := rt.AddDate(int(y.SInt()), int(mo.SInt()), int(d.SInt()))
 				return done(TimeV{ns: m.tt.BV(uint64(r.UnixNano()), 64), zero: m.tt.ff, loc: t.loc})
 			}
@@ -485,7 +485,11 @@ func addTime(T map[string]intrinsic) {
 			}
 			if allConst {
 				// concrete calendar fields, UTC wall clock (the flat model has one zone): the real time package
-				r := time.Date(v[0], time.Month(v[1]), v[2], v[3], v[4], v[5], v[6], time.UTC)
+				zone := time.UTC
+				if z := m.realZoneOf(a[7]); z != nil {
+					zone = z
+				}
+				r := time.Date(v[0], time.Month(v[1]), v[2], v[3], v[4], v[5], v[6], zone)
 				return done(TimeV{ns: m.tt.BV(uint64(r.UnixNano()), 64), zero: m.tt.ff, loc: a[7]})
 			}
 		}
@@ -506,9 +510,21 @@ func (m *Machine) noteCivil(t TimeV) {
 }
 
 // concreteFlat: the instant of a flat time value whose nanosecond count is a constant (and which is not the zero time)
-func concreteFlat(t TimeV) (time.Time, bool) {
+func (m *Machine) concreteFlat(t TimeV) (time.Time, bool) {
 	if t.civ != nil || t.ns == nil || !t.ns.IsConst() || t.zero == nil || !t.zero.IsFalse() {
 		return time.Time{}, false
 	}
-	return time.Unix(0, t.ns.SInt()).UTC(), true
+	rt := time.Unix(0, t.ns.SInt()).UTC()
+	if z := m.realZoneOf(t.loc); z != nil {
+		rt = rt.In(z) // a zone of the real tz database (zzverif.RealZone): wall clock of that zone
+	}
+	return rt, true
+}
+
+// realZoneOf: the tz-database zone registered (zzverif.RealZone) for a *time.Location value of the program, or nil
+func (m *Machine) realZoneOf(loc Value) *time.Location {
+	if p, ok := loc.(Ptr); ok && p.c != nil {
+		return m.realZones[p.c]
+	}
+	return nil
 }
